@@ -348,6 +348,16 @@ def parse_mir(text):
         ln = lines[i]
         if ln.startswith("// MIR FOR CTFE"):
             ctfe = True; i += 1; continue
+        m1 = re.match(r"^const ([A-Za-z_][A-Za-z0-9_:<> ]*?): ([A-Za-z0-9_&<>:, \[\]()]+) = (const .*);$", ln)
+        if m1:
+            # one-line constant:  const NAME: TY = const VALUE;
+            f = parse_function([f"const {m1.group(1)}: {m1.group(2)} = {{", f"    let mut _0: {m1.group(2)};", "    bb0: {", f"        _0 = {m1.group(3)};",
+                                "        return;", "    }", "}"])
+            if f is not None:
+                f.line = i + 1
+                funcs.setdefault(f.name, []).append(f)
+            i += 1
+            continue
         if ln.startswith(("fn ", "const ", "static ")) and ln.endswith("{"):
             start = i
             j = i + 1
